@@ -371,11 +371,27 @@ Theorem C03_emit_roundtrip_file : forall ts prog n d,
 Proof. exact file_roundtrip. Qed.
 Print Assumptions C03_emit_roundtrip_file.
 
-(* The general statement over the decidable class [writable] (Fmt/EdifEmit.v: what the reader
-   checks on the written file, minus the open findings: "&_" buses, bit-like scalar names, names
-   with * ?, non-ASCII text, line breaks in strings). NOT PROVED. Every run evaluates, on every
-   generated and bundled netlist, writable n -> rt_check n (model) and writable n -> the
-   implementation reads its own file back to the same netlist; a counterexample is a VIOLATION. *)
+(* every writable value IS written (no EmRaises / EmUnsupported), its document is ASCII and its own text *)
+From SV Require Import Proofs.EdifEmitTotal.
+Theorem C03_emit_total : forall ts prog n, writable n = true -> params_w ts prog = true ->
+  exists d, emit_file ts prog [] n = EmOk d /\ atoms_ascii d = true /\ sexp_ok d = true.
+Proof. exact emit_total. Qed.
+Print Assumptions C03_emit_total.
+
+(* THE GENERAL STATEMENT over the decidable class [writable] (Fmt/EdifEmit.v: what the reader checks
+   on the written file, minus the remaining open findings: bit-like scalar names, bus names starting
+   with a backslash, non-ASCII text, line breaks in strings): for every writable netlist value and
+   admissible timestamp / program parameters the writer model writes a TEXT, and the reader model
+   (tokenizer, parenthesis reader, whole-file elaboration) reads that text back as norm_file n -
+   same libraries, cells, ports, instances with references and properties, cables with the same pins
+   wire by wire, same top instance; only the view is called "netlist" and a bus carries the array
+   flag. PROVED (C03_emit_roundtrip_full_holds). It is a statement about the two MODELS; the models
+   are tied to the code on every run (harness/edif_emit.py: composer output == emit_file; whole-file
+   tie: elab_text == sdn.parse), and every run still evaluates writable n -> rt_check n and
+   writable n -> the implementation reads its own file back to the same netlist. *)
 Definition C03_emit_roundtrip_full : Prop := forall ts prog n,
   writable n = true -> params_w ts prog = true ->
   exists t, emit_text ts prog [] n = EmOk t /\ elab_text t = Ok (norm_file n).
+Theorem C03_emit_roundtrip_full_holds : C03_emit_roundtrip_full.
+Proof. exact emit_roundtrip_full. Qed.
+Print Assumptions C03_emit_roundtrip_full_holds.
